@@ -273,3 +273,11 @@ class _CheckNameAssumed:
     verify = False
     assumed = "contract of check_name is the subject of C05"
 
+
+
+# ------------------------------------------------------------------------------------------------ layout interface
+def BLS_IFACE_RAISES(s):
+    """The exceptional clause of THE interface contract of SerializableType.bit_length_set (specs/c02.py `_BlsIface`, the one
+    backed by the proofs of all overrides): TypeError iff the receiver is a ServiceType.  specs/c13_types.py and
+    specs/c18.py restate projections of that contract through this function."""
+    return ISINST(s.self, "ServiceType")
